@@ -24,6 +24,12 @@ func NewMiniListener() *MiniListener {
 
 func (s *MiniListener) EnterItem(ctx *parser.ItemContext) {
 	inItem = true
+	if ctx.Opt() != nil {
+		mode = "opt"
+		mode2 = "opt"
+	}
+	_ = bodyOfBad(ctx)
+	_ = bodyOfGood(ctx)
 	// ok: name is mandatory in the `KW name opt? body` alternative only — the SEMI alternative has no name: nil deref
 	n := ctx.Name().GetText()
 	seenNames = append(seenNames, n+leakyTable[n])
@@ -47,6 +53,14 @@ func (s *MiniListener) EnterItem(ctx *parser.ItemContext) {
 
 func (s *MiniListener) ExitItem(ctx *parser.ItemContext) {
 	inItem = false
+	mode = ""
+	if ctx.Opt() != nil {
+		mode2 = ""
+	}
+	inBodyFlag = false
+	if ctx.Opt() != nil {
+		inBodyFlag2 = false
+	}
 	// bad: the comma-ok result boxed into an interface is never == nil, the nil *OptContext is used
 	if o := optOf(ctx); o != nil {
 		_ = o.(*parser.OptContext).ID()
@@ -72,6 +86,8 @@ var outerTable = map[string]string{}
 var bodyDepth = 0
 
 func (s *MiniListener) EnterBody(ctx *parser.BodyContext) {
+	inBodyFlag = true
+	inBodyFlag2 = true
 	bodyDepth++
 	scopeTable = map[string]string{} // bad: also for a nested body
 }
@@ -83,7 +99,30 @@ func (s *MiniListener) ExitBody(ctx *parser.BodyContext) {
 	}
 }
 
+// ---- E6 nested bracket / cross bracket / positional access
+var mode = ""          // set for items with an opt only, taken back for every item: bad
+var mode2 = ""         // taken back under the same test: ok
+var inBodyFlag = false // set when a body begins, taken back when ANY item ends (items also hang under unit): bad
+var inBodyFlag2 = false
+
+// bad: the body of `KW name opt? body` is child 2 without an opt and child 3 with one
+func bodyOfBad(ctx *parser.ItemContext) *parser.BodyContext {
+	b, _ := ctx.GetChild(2).(*parser.BodyContext)
+	return b
+}
+
+func bodyOfGood(ctx *parser.ItemContext) *parser.BodyContext {
+	if b, ok := ctx.GetChild(2).(*parser.BodyContext); ok {
+		return b
+	}
+	b, _ := ctx.GetChild(3).(*parser.BodyContext)
+	return b
+}
+
 func (s *MiniListener) EnterOpt(ctx *parser.OptContext) {
+	if mode != "" || mode2 != "" || inBodyFlag || inBodyFlag2 {
+		seenNames = append(seenNames, "flagged")
+	}
 	stuck = true
 }
 
